@@ -199,9 +199,14 @@ pub fn run(pool: &Pool, sc: &Value) -> Value {
 /// two verifications in one process: the first at once, the second after `sleep_ms`
 pub fn run_sequence(pool: &Pool, sc: &Value) -> Value {
     // both layouts are built now (their expiries are relative to this moment); only the second *verification* is delayed
+    // optionally: what the second inputs give on their own, BEFORE anything else ran in this process
+    // (the replay binary is started once per batch; `also_alone` scenarios are replayed one per process by the harness)
+    let alone = if sc["also_alone"] == true { Some(run(pool, &sc["second"])) } else { None };
     let first = run(pool, &sc["first"]);
     let _ = first;
     let mut second = sc["second"].clone();
     second["delay_verification_ms"] = sc["sleep_ms"].clone();
-    run(pool, &second)
+    let mut after = run(pool, &second);
+    if let Some(a) = alone { after["alone_differs"] = json!(a["outcome"] != after["outcome"] || a["summaries"] != after["summaries"]); after["alone"] = a["outcome"].clone(); }
+    after
 }
